@@ -747,30 +747,22 @@ class ISMAGS:
             yield node_partitions
             return
 
+        def cell_key(cell):
+            # All the nodes of a refined cell have the same color. The color
+            # is defined relative to the position of the cells, which is
+            # shared between the top and the bottom partitions; sorting on it
+            # therefore puts equivalent cells at the same position in both.
+            _, counts = node_edge_colors[next(iter(cell))]
+            return len(cell), sorted(counts)
+
         new_partitions = []
-        output = [new_partitions]
         for partition in node_partitions:
             if not are_all_equal(node_edge_colors[node] for node in partition):
                 refined = make_partitions(partition, equal_color)
-                if (branch and len(refined) != 1 and
-                        len({len(r) for r in refined}) != len([len(r) for r in refined])):
-                    # This is where it breaks. There are multiple new cells
-                    # in refined with the same length, and their order
-                    # matters.
-                    # So option 1) Hit it with a big hammer and simply make all
-                    # orderings.
-                    permutations = cls._get_permutations_by_length(refined)
-                    new_output = []
-                    for n_p in output:
-                        for permutation in permutations:
-                            new_output.append(n_p + list(permutation[0]))
-                    output = new_output
-                else:
-                    for n_p in output:
-                        n_p.extend(sorted(refined, key=len))
+                new_partitions.extend(sorted(refined, key=cell_key))
             else:
-                for n_p in output:
-                    n_p.append(partition)
+                new_partitions.append(partition)
+        output = [new_partitions]
         for n_p in output:
             yield from cls._refine_node_partitions(graph, n_p, edge_colors, branch)
 
